@@ -19,7 +19,7 @@ extent-length function for writer, reader, retirement, recovery and migration); 
 followed by reserve_sector and disk_usage += and every release of an owned extent by disk_usage -=; flush_all / Drop
 persist loads of record_count / disk_usage. Not decided: the partition invariant itself at quiescent points.
 """
-DECIDED = ['journal slots alternate on every journal record so a torn write falls back to the record before it (shared with C04.position)', "a scrubbed run is released with the sum of its members' own extent lengths", "(a) who allocates / releases", "(b,c) release after durable marker and with no reader; dirty reservations only after scrub",
+DECIDED = ['a retirement that could not finish is put back; the shared retirement queue is only added to (shared with C19.retire)', 'journal slots alternate on every journal record so a torn write falls back to the record before it (shared with C04.position)', "a scrubbed run is released with the sum of its members' own extent lengths", "(a) who allocates / releases", "(b,c) release after durable marker and with no reader; dirty reservations only after scrub",
            "(d) one extent-length function", "(e) disk_usage accounting and what is persisted",
            'reservation word: sector bits below the flag bits for every accepted device size; flag helpers touch one bit; closed writer set',
            'allocator size index and start index are mutated for the same run (shared with C06.pair)',
